@@ -241,7 +241,10 @@ class Gen:
         n = len(h.obj.df)
         i = self.r.choice([0, -1, n - 1, -n, n, -n - 1, self.r.randint(-n - 1, n + 1)])
         keep = self.r.random() < 0.3
-        return self.mk("list.get_int", h=h.name, i=i, out=self.new_h() if keep else None)
+        op = self.mk("list.get_int", h=h.name, i=i, out=self.new_h() if keep else None)
+        if self.r.random() < 0.25:
+            op["np_int"] = True
+        return op
 
     def p_slice(self):
         h = self.pick("list")
